@@ -18,10 +18,10 @@ PROPS["C13"] = {
             _c13("framing/chunked-4200", "VerifC13Chunked"),
         ]},
         {"pkg": "input", "hdir": "input", "specs": [
-            _c13("framing/1-frame/2-cuts/valid-item", "VerifC13Framing", {"reader": "cuts", "frames": "1", "last": "1"}),
+            _c13("framing/1-frame/2-cuts/valid-item", "VerifC13Framing", {"reader": "cuts", "frames": "1", "last": "1", "styles": "02"}),
         ]},
         {"pkg": "input", "hdir": "input", "specs": [
-            _c13("framing/1-frame/2-cuts/other-kinds", "VerifC13Framing", {"reader": "cuts", "frames": "1", "last": "0234567"}),
+            _c13("framing/1-frame/2-cuts/other-kinds", "VerifC13Framing", {"reader": "cuts", "frames": "1", "last": "0724563"}),
             _c13("framing/2-frames/bytewise", "VerifC13Framing", {"reader": "bytewise", "frames": "2"}),
         ]},
         {"pkg": "input", "hdir": "input", "specs": [
@@ -38,7 +38,8 @@ PROPS["C13"] = {
             _c13("items/shapes/items<=3", "VerifC13Items", {"items": "3"}, tier="thorough"),
         ]},
         {"pkg": "input", "hdir": "input", "specs": [
-            _c13("framing/2-frames/2-cuts", "VerifC13Framing", {"reader": "cuts", "frames": "2"}, tier="thorough"),
+            _c13("framing/1-frame/2-cuts/valid-item/all-layouts", "VerifC13Framing", {"reader": "cuts", "frames": "1", "last": "1"}, tier="thorough"),
+            _c13("framing/2-frames/2-cuts", "VerifC13Framing", {"reader": "cuts", "frames": "2", "last": "0172456"}, tier="thorough"),
         ]},
         {"pkg": "input", "hdir": "input", "specs": [
             _c13("framing/1-frame/full-segmentation", "VerifC13Framing", {"reader": "seg", "frames": "1", "zeros": "0"}, tier="thorough"),
